@@ -108,6 +108,8 @@ class Mapper:
         ok = ret >= 0 if isinstance(ret, int) else False
         if c.get("err") == "UNPARSED":
             self.unsupported.append("unparsed strace line: " + c.get("raw", "")); return
+        if name.startswith("unknown_") or name == "umask":
+            self.unsupported.append("system call the tracer cannot decode: " + name); return
         if name == "execve":
             if self.seen_exec:
                 self.unsupported.append("execve of another program")
@@ -377,11 +379,15 @@ def vlib_scratch_shm():
 # Running
 
 STRACE = ["strace", "-f", "-s", "16", "-e", "trace=%file,%desc,%process"]
+# Tracer: harness/cmd/shtrace (own ptrace tracer; its kill counter is global over all threads) or strace
+# (counter per thread, see crash_points).  strace is always used for a cross-check of the first scenarios.
+TRACER = os.environ.get("C35_TRACER", "shtrace")
 
 
 class Runner:
-    def __init__(self, ck, shfmt, work):
+    def __init__(self, ck, shfmt, work, shtrace=None):
         self.ck, self.shfmt, self.work = ck, shfmt, work
+        self.shtrace = shtrace
         import itertools
         self.counter = itertools.count(1)
 
@@ -408,15 +414,22 @@ class Runner:
             if extra:
                 shutil.rmtree(extra, ignore_errors=True)
 
-    def run(self, case, inject=None):
-        """One strace'd `shfmt -w`.  -> dict(events, unsupported, snapshot, rc, stderr, calls, starts, killed_call)"""
+    def run(self, case, inject=None, tracer=None):
+        """One traced `shfmt -w`.  -> dict(events, unsupported, snapshot, rc, stderr, calls, starts, killed_call)"""
         root = os.path.join(self.work, "r%d_%d" % (case.idx, next(self.counter)))
         cwd, tmpdir, extra = case.build(root)
         log = os.path.join(root, "strace.log")
-        cmd = STRACE + ["-o", log]
-        if inject:
-            cmd += ["-e", "inject=%s:signal=KILL:when=%d" % inject]
-        cmd += [self.shfmt, "-w"] + case.args
+        tracer = tracer or (TRACER if self.shtrace else "strace")
+        if tracer == "shtrace":
+            cmd = [self.shtrace, "-o", log]
+            if inject:
+                cmd += ["-kill", "%s:%d" % inject]
+            cmd += ["--", self.shfmt, "-w"] + case.args
+        else:
+            cmd = STRACE + ["-o", log]
+            if inject:
+                cmd += ["-e", "inject=%s:signal=KILL:when=%d" % inject]
+            cmd += [self.shfmt, "-w"] + case.args
         try:
             rc, out, err = sl.run(cmd, cwd=cwd, env={"TMPDIR": tmpdir, "HOME": root}, umask=case.umask, timeout=120)
             text = open(log, errors="replace").read() if os.path.exists(log) else ""
@@ -452,13 +465,15 @@ def crash_points(full):
     ords = ordinals(starts)
     evs = [e for e in full["events"] if e["call"] not in ("exit", "crash")]
     pts = []
-    cls = 0        # number of state-changing calls before the boundary: boundaries with equal cls
-    for k, e in enumerate(evs):   # leave the same abstract file system behind
+    cls = 0        # number of directory-changing calls before the boundary: boundaries with equal cls
+    for k, e in enumerate(evs):   # leave the same directory behind
         s = e["start"]
         mut = e["call"] not in ("observe",)
         pts.append({"k": k, "name": starts[s][1], "when_g": ords[s][0], "when_t": ords[s][1],
                     "mutating": mut, "cls": cls})
-        if mut:
+        # calls after which the directory looks different (a file appears/disappears/grows/changes mode)
+        if e["call"] in ("write", "fchmod", "chmod", "rename", "unlink", "other") or \
+                (e["call"] == "open" and "O_CREAT" in e["flags"]):
             cls += 1
     pts.append({"k": len(evs), "name": "exit_group", "when_g": 1, "when_t": 1, "mutating": True, "cls": cls})
     return pts
@@ -476,6 +491,15 @@ def enumerate_crashes(rn, case, full, all_points, deadline, stats, max_attempts=
     pts = crash_points(full)
     wanted = [p for p in pts if (all_points or p["mutating"]) and (only is None or p["k"] in only)]
     got = {}
+    # calls of each name made by the start-up thread before the first event: an ordinal up to that
+    # number kills during runtime start-up, whatever thread the main goroutine is on later
+    evs0 = [e for e in full["events"] if e["start"] >= 0]
+    first = evs0[0]["start"] if evs0 else 0
+    main_tid = full["starts"][0][0] if full["starts"] else None
+    startup = {}
+    for tid, nm in full["starts"][:first]:
+        if tid == main_tid:
+            startup[nm] = startup.get(nm, 0) + 1
     for p in wanted:
         if p["k"] in got:
             continue
@@ -485,6 +509,7 @@ def enumerate_crashes(rn, case, full, all_points, deadline, stats, max_attempts=
         # guesses are repeated.
         learned = None
         attempts = 0
+        oi = 0 if (TRACER == "shtrace" and rn.shtrace) else 1      # shtrace counts over all threads
         while attempts < max_attempts and time.time() < deadline:
             if attempts in (0, 1, 4) or learned is None and attempts != 2:
                 w = p["when_g"]
@@ -503,7 +528,9 @@ def enumerate_crashes(rn, case, full, all_points, deadline, stats, max_attempts=
             stats["inject_missed"] += 1
             evs = [e for e in res["events"] if e["call"] not in ("exit", "crash")]
             if (k2 is None or k2 > p["k"]) and p["k"] < len(evs):
-                learned = ordinals(res["starts"])[evs[p["k"]]["start"]][1]
+                learned = ordinals(res["starts"])[evs[p["k"]]["start"]][oi]
+                if oi == 1 and p["k"] > 0 and learned <= startup.get(p["name"], 0):
+                    learned = None
     return got, [p["k"] for p in wanted]
 
 
@@ -806,6 +833,7 @@ def run(ck):
     shfmt = sl.build_shfmt()
     if shutil.which("strace") is None:
         raise vlib.Inconclusive("strace not installed")
+    shtrace = vlib.build_harness("shtrace")
     vecs = model_runs(ck)
     progress("model done")
     if not vecs:
@@ -815,7 +843,7 @@ def run(ck):
              "crash_runs": 0, "inject_missed": 0}
     bud = BUDGET[ck.tier]
     try:
-        rn = Runner(ck, shfmt, work)
+        rn = Runner(ck, shfmt, work, shtrace)
         cases = make_cases(ck, vecs)
         sel_full, sel_part = crash_selection(ck, cases)
         order = full_run_order(ck, cases, sel_full + sel_part)
@@ -845,6 +873,20 @@ def run(ck):
                 if res is not None:
                     fulls[c.idx] = res
                     add(c, res, None)
+        # cross-check of the tracer: strace must report the same events for the same scenario
+        ncross = 0
+        if TRACER == "shtrace":
+            for c in order[:3 if ck.tier == "quick" else 12]:
+                if c.idx not in fulls:
+                    continue
+                other = rn.run(c, tracer="strace")
+                a = [ev_class(c, e) for e in fulls[c.idx]["events"]]
+                b = [ev_class(c, e) for e in other["events"]]
+                if a != b or other["unsupported"]:
+                    raise vlib.Inconclusive("shtrace and strace disagree on scenario %d:\n%s\n%s" % (c.idx, a, b))
+                ncross += 1
+        ck.notes["tracer"] = TRACER
+        ck.notes["tracer_crosschecked_with_strace"] = ncross
         progress("full runs done: %d" % len(fulls))
         ck.notes["scenarios_in_model"] = len(cases)
         ck.notes["full_runs"] = len(fulls)
@@ -924,8 +966,9 @@ def run(ck):
             "writes are sequential (lseek/pwrite on a traced descriptor have no action and would be rejected)",
             "root user, Linux, ext4 (+ tmpfs for the cross-device TMPDIR variant), GOMAXPROCS default",
         ]
-        # Hard requirement (thorough): for the all-boundaries scenarios every distinct abstract file-system
-        # state (= every maximal run of boundaries between two state-changing calls) was hit at least once.
+        # Hard requirement (thorough): for the all-boundaries scenarios every distinct directory state along
+        # the run (= every maximal run of boundaries between two directory-changing calls: create, write,
+        # chmod, rename, unlink) was hit by a kill at least once.
         # Single boundaries inside such a run can stay unreached when the scheduler keeps moving the main
         # goroutine between threads (strace counts per thread); they are listed in crash_points_missing.
         uncovered = {}
@@ -940,7 +983,7 @@ def run(ck):
                 uncovered[c.idx] = miss
         ck.notes["crash_state_classes_uncovered"] = {str(k): v for k, v in uncovered.items()}
         if ck.tier == "thorough" and uncovered:
-            raise vlib.Inconclusive("abstract states of the all-boundaries scenarios never hit by a kill: %s" % json.dumps(uncovered)[:500])
+            raise vlib.Inconclusive("directory states of the all-boundaries scenarios never hit by a kill: %s" % json.dumps(uncovered)[:500])
     finally:
         shutil.rmtree(work, ignore_errors=True)
 
@@ -952,7 +995,7 @@ def replay(ck, rec):
     stats = {"validated": 0, "rejected": 0, "not_validated": 0, "nontrivial": set(), "reached": {},
              "crash_runs": 0, "inject_missed": 0}
     try:
-        rn = Runner(ck, shfmt, work)
+        rn = Runner(ck, shfmt, work, vlib.build_harness("shtrace"))
         case = Case(v["idx"], v["scenario"], v["sizes_req"], v["tmpvariant"])
         rn.reference(case)
         inj = v.get("inject")
